@@ -37,7 +37,7 @@ Prefer a change inside the library logic proper (not in test code, not in Cargo 
 
 DELIVERABLES - create the directory {wt}/_seeded/ containing:
   * patch.diff  - output of `git -C {wt} diff -- poly-commit` (the library change only; do not include _seeded or your demo in it),
-  * a demonstration: a self-contained Rust integration test file `demo.rs` (written for placement at {wt}/poly-commit/tests/demo_{pid.lower()}.rs, using only the crate's public API plus the dev-dependencies already in poly-commit/Cargo.toml such as ark-bls12-381, ark-ed-on-bls12-381, ark-poly, ark-ff, ark-ec, ark-std, ark-serialize, ark-crypto-primitives, rand_chacha, blake2) that FAILS with your change applied and PASSES on the unchanged sources. Verify both directions yourself (use `git stash` / `git apply` to flip the change; run with `cargo test -p ark-poly-commit --offline --test demo_{pid.lower()}`),
+  * a demonstration: a self-contained Rust integration test file `demo.rs` (written for placement at {wt}/poly-commit/tests/demo_{pid.lower()}.rs, using only the crate's public API plus the dev-dependencies already in poly-commit/Cargo.toml such as ark-bls12-381, ark-ed-on-bls12-381, ark-poly, ark-ff, ark-ec, ark-std, ark-serialize, ark-crypto-primitives, rand_chacha, blake2) that FAILS with your change applied and PASSES on the unchanged sources. Verify both directions yourself (never use `git stash` - the stash is shared by all worktrees of this repository and other agents work in parallel; flip your change with `git diff -- poly-commit > /tmp/my-{pid}-{n}.diff`, `git apply -R /tmp/my-{pid}-{n}.diff` and `git apply /tmp/my-{pid}-{n}.diff`; run with `cargo test -p ark-poly-commit --offline --test demo_{pid.lower()}`),
   * meta.json with keys: "property" ("{pid}"), "summary" (what was changed, one or two sentences), "needs" (what specific input/sequence/configuration is needed for the violation to manifest), "ran" (the commands you ran and their outcomes, including the full-suite result with the change applied).
 Leave the worktree with the change APPLIED and the demo test file in place.
 
